@@ -451,6 +451,9 @@ class Interp:
         if k == 'fault':
             if self.try_depth > 0 and self.decline_fault_in_try:
                 raise ModelDeclines('fault dynamically inside try (recorded defect, avoided)')
+            if s[1] == 'throw_uncaught' and self.try_depth > 0:
+                # a throw dynamically inside try { } is what try/catch is for: the nearest catch takes it
+                raise Throw('boom%d' % s[2])
             raise SqfError(s[1], s[2])
         if k == 'with':
             v, _ = self.run_block(s[2], ns=s[1].lower())
